@@ -29,6 +29,7 @@ RULES = {
     "R3.1": "synchronous kernels: identity scan carry, broadcast operands, and no batch index surviving un-batching (slot outputs depend on their own slot only)",
     "R3.2": "every result of a pmapped callable is consumed only by _unbatch_results",
     "R3.3": "pad/strip pairing and slot accounting of BatchProcessor (the instances of C18 R18.1 / R18.2): padding only after the states, exactly n_pad rows stripped from the end, slots == states + padding",
+    "R3.5": "what a solver computes depends on its own batch layout only: no function of the package writes a module-level or class-level container, and no solver writes into the problem object it was given (a cache of batched states, masks or compiled kernels kept there is shared with every other solver of the process / of that problem, whatever ITS batch size and device count) - instances of C19 R19.5, expected count zero",
     "R3.4": "semi-async: carried values are scattered under where(mask, old, new) with mask = (arange(dev*batch*slot) >= n_states) reshaped like the states, mask paired with its own rows",
 }
 ASSUMPTIONS = [
@@ -52,6 +53,9 @@ def run(ctx: Context, col) -> None:
     from .common import Parts
 
     part = Parts()
+    from .c12 import _shared_state
+    _shared_state(ctx, col, "R3.5")
+    col.floor("R3.5", 2)
     for cname, meth, args in SYNC_KERNELS:
         cls = ctx.ct.get(cname)
         extra = {}
